@@ -482,6 +482,9 @@ func (i *Interpreter) eval(expr ast.Expr, env *environment.Environment, isRepl b
 			if signal.Type == ControlFlowBreak {
 				break // Exit the loop
 			}
+			if signal.Type == ControlFlowReturn {
+				return nil, signal // A return inside the body leaves the loop and the function
+			}
 		}
 		return nil, &ControlFlowSignal{Type: ControlFlowNone, LineNumber: 0}
 
